@@ -44,8 +44,8 @@ MODELS = [
     "LinearElasticTensorNotation", "LinearElasticPlaneStress", "LinearElasticPlaneStrain", "MS:linear_elastic",
 ]
 JAX_MODELS = ["JAX:neo_hooke", "JAX:mooney_rivlin", "JAX:yeoh", "JAX:third_order_deformation", "JAX:blatz_ko", "JAX:storakers", "JAX:extended_tube", "JAX:miehe_goektepe_lulei"]
-HISTORY = ("OgdenRoxburgh", "OgdenRoxburghAD", "Plastic", "Visco", "MAD:morph")
-MIXED = ("ThreeField", "NearlyIncompressible", "NearlyIncompressibleAD")
+HISTORY = ("OgdenRoxburgh", "OgdenRoxburghAD", "Plastic", "Visco", "MAD:morph", "TF:Visco", "NI:Visco", "TF:OgdenRoxburgh", "NI:OgdenRoxburgh")
+MIXED = ("ThreeField", "NearlyIncompressible", "NearlyIncompressibleAD", "TF:Visco", "NI:Visco", "TF:OgdenRoxburgh", "NI:OgdenRoxburgh")
 
 
 def draw_model(r, name):
@@ -70,6 +70,10 @@ def draw_model(r, name):
         return {"name": name, "p": {"lmbda": round(2 * mu, 4), "mu": mu, "sy": rf(r, 0.02, 0.08), "K": rf(r, 0.05, 0.5)}}
     if name == "Visco":
         return {"name": name, "p": {"mu": mu, "bulk": bulk, "mu_v": rf(r, 0.2, 1.0), "eta": rf(r, 0.5, 5), "dtime": rf(r, 0.1, 1)}}
+    if name in ("TF:Visco", "NI:Visco"):
+        return {"name": name, "p": {"mu": mu, "bulk": bulk, "mu_v": rf(r, 0.2, 1.0), "eta": rf(r, 0.5, 5), "dtime": rf(r, 0.1, 1)}}
+    if name in ("TF:OgdenRoxburgh", "NI:OgdenRoxburgh"):
+        return {"name": name, "p": {"mu": mu, "r": rf(r, 1.5, 4), "m": rf(r, 0.5, 2), "beta": rf(r, 0, 0.3), "bulk": bulk}}
     if name == "ThreeField":
         return {"name": name, "p": {"mu": mu, "bulk": bulk}}
     if name == "NearlyIncompressible":
@@ -194,6 +198,17 @@ def build(spec):
             return mu * tm.special.dev(J ** (-2 / 3) * b) + bulk * (J - 1) * J * tm.base.eye(b)
 
         return fem.MaterialAD(kirchhoff, mu=p["mu"], bulk=p["bulk"])
+    if name in ("TF:Visco", "NI:Visco"):
+        # mixed wrappers around an inner material whose state update is a rate equation
+        visco = fem.Hyperelastic(fem.finite_strain_viscoelastic, mu=p["mu_v"], eta=p["eta"], dtime=p["dtime"], nstatevars=6)
+        if name == "TF:Visco":
+            return fem.ThreeFieldVariation(visco & fem.NeoHooke(mu=p["mu"], bulk=p["bulk"]))
+        return fem.NearlyIncompressible(visco & fem.NeoHooke(mu=p["mu"]), bulk=p["bulk"])
+    if name in ("TF:OgdenRoxburgh", "NI:OgdenRoxburgh"):
+        pe = fem.OgdenRoxburgh(fem.NeoHooke(mu=p["mu"]), r=p["r"], m=p["m"], beta=p["beta"])
+        if name == "TF:OgdenRoxburgh":
+            return fem.ThreeFieldVariation(pe & fem.Volumetric(bulk=p["bulk"]))
+        return fem.NearlyIncompressible(pe, bulk=p["bulk"])
     if name.startswith("JAX:"):
         import felupe.constitution.jax as fj
 
@@ -271,10 +286,11 @@ class Probe:
     # -- finite differences ----------------------------------------------------------------------
     def near_switch(self, x):
         """Documented non-smooth points that the generic kink rule cannot see reliably."""
-        if self.model in ("OgdenRoxburgh", "OgdenRoxburghAD"):
+        if self.model in ("OgdenRoxburgh", "OgdenRoxburghAD", "TF:OgdenRoxburgh", "NI:OgdenRoxburgh"):
             from .C15 import neo_hooke_energy
 
             p = self.spec["p"]
+            # the isochoric Neo-Hooke energy is the same at F and at the modified (J / det F)^(1/3) F
             W = neo_hooke_energy(x[0], p["mu"])
             Wold = x[-1][0]
             band = 1e-3 * (p["m"] + p["beta"] * np.maximum(W, Wold))
